@@ -21,6 +21,10 @@ fn process_commands(
                 Response::Error { msg } => {
                     responses.push(msg.clone());
                     log::debug!("Http response Error: {}", msg);
+                    // The error text is the entry of this command, a message the refused command
+                    // also queued (no-db-selected, permission denied) must not become the entry
+                    // of the next one
+                    while let Ok(Some(_)) = receiver.try_next() {}
                 }
                 Response::VersionError {
                     msg,
